@@ -294,6 +294,9 @@ func runLifeMode(mode string, r *vlib.Rand, keys map[string]struct{}) {
 			o.moment = moments[(i/len(sources)+i)%len(moments)]
 			o.npeers = r.Pick(0, 1, 20, 50)
 			o.ticker = r.Bool()
+			if (o.shutdownFrom == "OnTraffic" || o.shutdownFrom == "OnClose") && i%3 == 1 {
+				o.moment, o.npeers = "async-backlog", r.Pick(20, 40)
+			}
 		case "c07":
 			c.Rotate = i%5 == 3
 			o.canaries = 3
